@@ -220,11 +220,21 @@ func emitStream(cw *caseWriter, prop string, ti, to []colDesc, proc string, revs
 
 var streamLines = []string{`{"a":1}`, `{"b":"x","a":null}`, ``, `{`, `[1]`, `{"a":"notanumber"}`, `{"a":2,"z":[1,{"q":1}]}`, `   `, `{"a":1} trailing`, `{}`, `null`, `{"a":3}`}
 
+// oddLines: the lines of other framings of the same data (a pretty-printed object or array spread over several
+// lines, so lines that START with a closing or separating character or stop with a bracket still open),
+// concatenated objects, a byte-order mark, control bytes, a number no float64 holds.
+var oddLines = []string{`}`, `]`, `:`, `,`, `},`, `],`, `[`, `{"a":2,"tags":["x",`, `{"a":{`, `"a":1`, `  "a": 1,`, `{"a":1},`, "\xef\xbb\xbf{\"a\":1}", "\x00", `{"a":1}{"a":2}`,
+	`{"a":1e999}`, `{"a":1}` + "\r" + `{"a":2}`, `"`, `{"a":"`, `\`, `{"a":1,}`, `{"A":5}`, "{\"a\":1}\t", "\t{\"a\":1}"}
+
 func randStreamBytes(r *rng, maxLines int) []byte {
 	var sb bytes.Buffer
 	n := r.intn(maxLines + 1)
 	for i := 0; i < n; i++ {
-		sb.WriteString(pick(r, streamLines))
+		if r.chance(1, 4) {
+			sb.WriteString(pick(r, oddLines))
+		} else {
+			sb.WriteString(pick(r, streamLines))
+		}
 		if i < n-1 || r.chance(2, 3) {
 			if r.chance(1, 4) {
 				sb.WriteString("\r\n")
